@@ -143,7 +143,11 @@ func c12archive(r *rand.Rand, shape string) []tarx.Entry {
 	for i, n := range nodes {
 		e := tarx.Entry{Dir: n.dir, Perm: c12perms[r.Intn(len(c12perms))], Tag: byte(i)}
 		spelled := n.path
-		switch r.Intn(7) {
+		switch r.Intn(9) {
+		case 7:
+			spelled = "//" + n.path // a doubled leading slash is a spelling of the root, too
+		case 8:
+			spelled = "/../" + n.path // climbing right after the root stays at the root
 		case 0:
 			spelled = "./" + n.path
 		case 1:
@@ -172,6 +176,9 @@ func c12archive(r *rand.Rand, shape string) []tarx.Entry {
 			if shape == "many-empty" && len(entries) < 100 {
 				e.Size = 0
 			}
+			if r.Intn(6) == 0 {
+				e.Cont = true // stored with typeflag '7' (contiguous file): a regular file all the same
+			}
 		}
 		entries = append(entries, e)
 	}
@@ -185,9 +192,11 @@ func c12archive(r *rand.Rand, shape string) []tarx.Entry {
 		entries = append(entries[:at], append([]tarx.Entry{rootEntry}, entries[at:]...)...)
 	}
 	if shape == "escaping" {
-		esc := tarx.Entry{Name: []string{"../x", "a/../../x", "..", "../../etc/passwd", "a/b/../../../x", "../"}[r.Intn(6)], Perm: 0o644, Size: 10, Tag: 99}
+		esc := tarx.Entry{Name: []string{"../x", "a/../../x", "..", "../../etc/passwd", "a/b/../../../x", "../", "docs/../.."}[r.Intn(7)], Perm: 0o644, Size: 10, Tag: 99}
 		if strings.HasSuffix(esc.Name, "/") {
 			esc.Dir, esc.Size = true, 0
+		} else if r.Intn(3) == 0 {
+			esc.Size = c12small + 1 + r.Intn(5000) // beyond the small buffer: written by the reader itself, not by a background writer
 		}
 		at := r.Intn(len(entries) + 1)
 		entries = append(entries[:at], append([]tarx.Entry{esc}, entries[at:]...)...)
